@@ -3,7 +3,8 @@ from lib import semcheck, progs, progs_r4
 from lib.semcheck import impl, model_expr, compare, oracle, describe, shrink, IMPORTS
 
 ID = 'C01'
-THEOREMS = ['C01_compile_program_total', 'C01_compiled_program_computes_reference', 'C01_compiled_program_is_sld', 'C01_source_text_is_sld', 'C01_front_good', 'C01_naming_equals_renaming_apart', 'C01_body_code_correct', 'C01_fresh_head_variable', 'C01_activations_use_fresh_cells', 'C01_distinct_variables_distinct_cells', 'C01_anon_numbered', 'C01_anon_name_injective', 'C01_anon_name_not_a_source_variable', 'C01_call_never_cuts']
+THEOREMS = ['C01_compile_program_total', 'C01_compiled_program_computes_reference', 'C01_compiled_program_is_sld', 'C01_source_text_is_sld', 'C01_front_good', 'C01_naming_equals_renaming_apart', 'C01_body_code_correct', 'C01_fresh_head_variable', 'C01_activations_use_fresh_cells', 'C01_distinct_variables_distinct_cells', 'C01_anon_numbered', 'C01_anon_name_injective', 'C01_anon_name_not_a_source_variable', 'C01_call_never_cuts',
+            'C01_numeral_value_any_spelling', 'C01_numeral_eq_any_spelling', 'C01_numeral_neq_any_spelling']
 CASE_TIMEOUT = 60
 MODEL_NEEDS_IMPL = True
 COQ_CHUNK = 20
@@ -88,13 +89,13 @@ def builtin_corpus():
     prog([['e', [V('X'), A('plain')], call('d', V('X'), V('_'))], ['e', [F('f', V('X')), A('nested')], call('d', V('X'), V('_'))],
           ['e', [V('X'), V('X')], ['true']], ['e', [V('X'), A('again')], call('d', V('_'), V('X'))], ['e', [V('Y'), A('other')], call('d', V('X'), V('Y'))]] + d,
          [['e', [V('Q0'), V('Q1')]], ['e', [A('b'), V('Q0')]], ['e', [V('Q0'), A('again')]], ['e', [F('f', V('Q0')), V('Q1')]]])
-    # round 4: comparisons of constants: the integer 7 is the integer 7 however it is spelled
+    # round 4: comparisons of constants (a numeral denotes its value however it is spelled)
     num = lambda s: ['num', s]
-    prog([['same', [A('yes')], call('=', num('01'), num('1'))], ['same', [A('no')], call('\\=', num('01'), num('1'))],
-          ['same', [A('atoms')], call('=', A('a'), A('a'))], ['same', [A('mixed')], call('\\=', A('a'), num('0'))],
-          ['same', [A('deep')], call('=', F('f', num('000'), ['list', [num('10')]]), F('f', num('0'), ['list', [num('0010')]]))],
+    prog([['cmp', [A('eq')], call('=', num('01'), num('1'))], ['cmp', [A('neq')], call('\\=', num('01'), num('1'))],
+          ['cmp', [A('atoms')], call('=', A('a'), A('a'))], ['cmp', [A('mixed')], call('\\=', A('a'), num('0'))],
+          ['cmp', [A('deep')], call('=', F('f', num('000'), ['list', [num('10')]]), F('f', num('0'), ['list', [num('0010')]]))],
           ['n', [num('0042')], ['true']], ['n', [num('42')], ['true']]],
-         [['same', [V('Q0')]], ['n', [V('Q0')]], ['n', [num('042')]]])
+         [['cmp', [V('Q0')]], ['n', [V('Q0')]], ['n', [num('042')]]])
     return L
 
 def nontrivial(case, io):
